@@ -607,6 +607,7 @@ def shrink(case, vt, clause, budget=80):
 
 def check_case(ck, d, case, vt, from_corpus=False):
     res = drive(case, vt)
+    ck.extra_cov["_last_error"] = res["error"]
     total = sum(len(w["jobs"]) for w in case["waves"])
     ck.count("backend:" + case["backend"])
     ck.count(f"queue={len(case['queue'])},pop={case['pop']}")
@@ -688,6 +689,24 @@ def check_case(ck, d, case, vt, from_corpus=False):
     return bad, mm
 
 
+def malformed_constructions(ck):
+    """inputs outside the property's quantifier that the constructor refuses: more resources per task than
+    the queue holds (no job could ever run), a plain function for the serial backend"""
+    from deephyper.evaluator import SerialEvaluator, queued
+
+    def sync_fn(job, dequed=None):
+        return 1.0
+
+    for queue, pop, fn, what in [([10], 2, run_serial, "pop>queue"), ([], 1, run_serial, "pop>queue"),
+                                 ([10, 11], 1, sync_fn, "not-a-coroutine")]:
+        try:
+            ev = queued(SerialEvaluator)(fn, num_workers=1, queue=queue, queue_pop_per_task=pop)
+            ck.count(f"constructor:{what}:accepted")
+            ev.close()
+        except ValueError:
+            ck.count(f"constructor:{what}:rejected")
+
+
 def _corpus():
     d = common.VERIF / "corpus" / PROP
     return [(f.name, json.loads(f.read_text())["case"]) for f in sorted(d.glob("*.json"))] if d.is_dir() else []
@@ -718,6 +737,7 @@ def run(ck):
         vt = vloop.install()
         orig = _guard_vloop()
         try:
+            malformed_constructions(ck)
             for name, case in _corpus():
                 ck.count("corpus")
                 if case["backend"] == "serial":
@@ -739,9 +759,10 @@ def run(ck):
             if stuck >= 2:  # every stuck scenario costs seconds of real time; two replays are enough
                 ck.count("thread-scenario-skipped-after-two-stuck-ones")
                 continue
-            bad, _ = check_case(ck, d, case, None)
-            stuck += any(b[0] == "progress" and "stopped" in b[1] for b in bad)
+            check_case(ck, d, case, None)
+            stuck += "stopped" in str(ck.extra_cov.get("_last_error"))
     ck.extra_cov.pop("_shrunk", None)
+    ck.extra_cov.pop("_last_error", None)
     orders = ck.extra_cov.pop("_orders", set())
     ck.extra_cov["distinct_completion_orders"] = len(orders)
 
@@ -757,4 +778,5 @@ def replay(ck, case):
         vloop.uninstall()
     ck.extra_cov.pop("_orders", None)
     ck.extra_cov.pop("_shrunk", None)
+    ck.extra_cov.pop("_last_error", None)
     print("replay: oracle failures:", bad or "none", "| model mismatch:", mm or "none")
